@@ -141,6 +141,17 @@ def correspondence(ctx):
                                  drv.ask("cond", qlist(p), ilist(sh), q(eff), ilist(idxs), ilist(vals))))
                     ctx.case(("cond", tuple(sh), tuple(p), idxs, vals),
                              sample={"op": "conditionalize", "shape": sh, "idx": list(idxs), "val": list(vals)})
+    # total mass slightly off (no sub-threshold entry, so the constructor does not renormalise): accepted iff |sum-1| <= 1e-8
+    for sh in ([4], [2, 3], [2, 2, 2]):
+        n = int(np.prod(sh))
+        base = np.full(n, 1.0 / n)
+        for delta in (0.0, 3e-9, -3e-9, 5e-8, -5e-8, 1e-6, -1e-6, 9e-6, 1e-4):
+            p = base.copy(); p[0] += delta
+            a = dist_repr(lambda: MultinomialDistribution(p.copy(), tuple(sh)))
+            pend.append(("ctor", (sh, p.tolist(), "mass", delta), a, drv.ask("ctor", qlist(p), ilist(sh), EPS8)))
+            ctx.count("ctor mass-error cases")
+            ctx.case(("mass", tuple(sh), delta), nontrivial=delta != 0.0,
+                     sample={"op": "ctor", "shape": sh, "mass_error": delta})
     # error branches
     bad = [
         ("ctor-neg", lambda: MultinomialDistribution(np.array([-0.5, 1.5]), (2,)), ("ctor", "-1/2,3/2", "2", EPS8)),
@@ -194,6 +205,19 @@ def oracle(ctx, volume=1):
                 ctx.violate("C16/index/roundtrip", f"shape {sh} serial {s}: multi {mi} (row-major {ref}), back {back}",
                             {"kind": "index", "shape": sh, "serial": s})
                 break
+    # the documented tolerance of the sum check: every accepted distribution (and its marginals) has |sum - 1| <= 1e-8
+    for sh in ([3], [2, 3], [2, 2, 3]):
+        n = int(np.prod(sh))
+        for delta in (3e-9, 5e-8, -5e-8, 1e-6, -9e-6):
+            p = np.full(n, 1.0 / n); p[-1] += delta
+            rep = {"kind": "mass", "shape": sh, "ps": p.tolist()}
+            try:
+                d = MultinomialDistribution(p.copy(), tuple(sh))
+            except ValueError:
+                continue
+            ds = [d] + [d.marginalize([i]) for i in range(len(sh))]
+            if any(abs(float(np.sum(x.ps)) - 1.0) > 1e-8 + 1e-12 for x in ds):
+                ctx.violate("C16/ctor/accepts-unnormalised", f"distribution of total mass 1{delta:+.0e} on shape {sh} is accepted (documented tolerance 1e-8)", rep)
     g = ctx.npgen(2)
     nt = (40 if ctx.quick else 300) * volume
     dshapes = [s for s in shapes(4, 4) if np.prod(s) > 1 and len(s) > 1]
@@ -275,6 +299,28 @@ def ensembles(ctx, volume=1):
         except Exception as e:  # noqa
             ctx.violate("C16/ensemble/raises", f"{type(e).__name__}: {e}", rep); continue
         ctx.case(("ens", t, m1, m2), sample={"op": "ensemble", "outcomes": [m1, m2]})
+        # a readout POVM on the ensembles: the joint distribution is laid out as (measurement outcomes..., readout outcome)
+        m3 = [m for m in (2, 3, 4, 5) if m not in (m1, m2)][t % 2]
+        E = qobj.rand_povm_mats(g, d, m3)
+        povm = qobj.Povm(c_sys, [qobj.vec_of(c_sys, e) for e in E])
+        try:
+            j1 = compose_qoperations(povm, e1)
+            j2 = compose_qoperations(povm, e2)
+            okj = tuple(j1.shape) == (m1, m3) and tuple(j2.shape) == (m1, m2, m3)
+            for i in range(m1):
+                r1 = K1[i][0] @ rho @ K1[i][0].conj().T
+                for k in range(m3):
+                    okj = okj and abs(j1[(i, k)] - np.trace(E[k] @ r1).real) < 1e-9
+                for j in range(m2):
+                    r2 = K2[j][0] @ r1 @ K2[j][0].conj().T
+                    for k in range(m3):
+                        okj = okj and abs(j2[(i, j, k)] - np.trace(E[k] @ r2).real) < 1e-9
+            okj = okj and np.allclose(j2.marginalize([0, 1]).ps, e2.prob_dist.ps, atol=1e-9)
+        except Exception as e:  # noqa
+            okj = False
+        if not okj:
+            ctx.violate("C16/ensemble/readout-layout", f"POVM with {m3} outcomes on the ensemble of a {m1}- then {m2}-outcome measurement: joint distribution "
+                        "is not laid out as (earlier, later, readout)", dict(rep, m3=m3))
         ok = tuple(e1.prob_dist.shape) == (m1,) and tuple(e2.prob_dist.shape) == (m1, m2)
         try:
             ok = ok and _ensemble_ok(e1, e2, K1, K2, rho, m1, m2)
